@@ -295,6 +295,12 @@ func runVariant(c *run.Ctx, cs Case, s *Spec, a *Agg, v *Variant, dir string, re
 		capCPU = v.CPUCap
 	}
 	p := runRare(c, args, stdin, v.Stdin, v.GMP, v.Points, cs.Seed, capCPU)
+	for attempt := 0; p.spun && attempt < 2; attempt++ {
+		// CPU accounting inside a loaded VM can be off (stolen time charged to whoever was on the vCPU):
+		// one overrun proves nothing. Only a run that overruns three times out of three is reported.
+		c.Count("cpu_overruns_retried", 1)
+		p = runRare(c, args, stdin, v.Stdin, v.GMP, v.Points, cs.Seed, capCPU)
+	}
 	c.Count("cli_runs", 1)
 	c.Count("cli_runs_"+v.Mode, 1)
 	ctx := fmt.Sprintf("\n  variant %s\n  command: %s\n  corpus: %s", v.String(), p.cmdline("rare"), run.Q(corpusHead(s)))
@@ -307,7 +313,7 @@ func runVariant(c *run.Ctx, cs Case, s *Spec, a *Agg, v *Variant, dir string, re
 		if s.Cmd == "heatmap" && hasEmptyCol(a) {
 			fp = fpHeatHang
 		}
-		report(fp, "no-termination", fmt.Sprintf("rare did not finish: it was killed after consuming %.0f CPU-seconds on a %d-line input (it was running, not waiting)%s", p.cpu, len(s.Lines), ctx))
+		report(fp, "no-termination", fmt.Sprintf("rare did not finish: three runs out of three were killed after consuming more than %.0f CPU-seconds on a %d-line input (running, not waiting)%s", p.cpu, len(s.Lines), ctx))
 		return nil, false
 	}
 	if p.wallExpired {
@@ -319,7 +325,14 @@ func runVariant(c *run.Ctx, cs Case, s *Spec, a *Agg, v *Variant, dir string, re
 		if s.Cmd == "bars" && s.Stacked && !a.allPos {
 			fp = fpStackZero
 		}
-		report(fp, "crash", fmt.Sprintf("rare crashed (exit %d): %s%s", p.code, run.Q(tail(string(p.stderr), 700)), ctx))
+		head := ""
+		for _, ln := range strings.Split(string(p.stderr), "\n") {
+			if strings.HasPrefix(ln, "panic:") || strings.HasPrefix(ln, "fatal error:") {
+				head = ln
+				break
+			}
+		}
+		report(fp, "crash", fmt.Sprintf("rare crashed (exit %d): %s; stderr tail %s%s", p.code, head, run.Q(tail(string(p.stderr), 500)), ctx))
 		return nil, false
 	}
 	o := &outcome{v: v, p: p}
@@ -335,6 +348,8 @@ func runVariant(c *run.Ctx, cs Case, s *Spec, a *Agg, v *Variant, dir string, re
 			fp = fpDelim
 		case s.Cmd == "reduce" && a.reduceEmptySingle && f.class == "csv-vs-reference":
 			fp = fpReduceEmpty
+		case s.Cmd == "histo" && f.class == "snapshot-vs-reference" && histoLostRow(s, a):
+			fp = fpHistoLost
 		}
 		report(fp, f.class, f.msg+ctx)
 	}
